@@ -41,11 +41,22 @@ type c05GraphCase struct {
 	Mode    string `json:"mode"` // deferred | immediate
 	Reverse bool   `json:"base_reverse"`
 	Choices []int  `json:"choices,omitempty"`
+	Perm    []int  `json:"relabel,omitempty"` // node i is played by pool identity Perm[i] (default: identity)
 }
 
 // runGraphCase builds the graph the given way and returns findings.
 func runGraphCase(c c05GraphCase) []Finding {
-	pool := gPool4[:c.N]
+	pool := gPool4[:min(c.N, 4)]
+	if c.N == 5 {
+		pool = gPool5
+	}
+	if len(c.Perm) == c.N {
+		p2 := make([]gnode, c.N)
+		for i, pi := range c.Perm {
+			p2[i] = pool[pi]
+		}
+		pool = p2
+	}
 	adj := adjOf(c.N, c.Mask, c.Desc)
 	st := newGState(pool)
 	st.checkPaths = true
@@ -480,4 +491,49 @@ func init() {
 			return jobs
 		},
 	})
+}
+
+// c19DAGs: every DAG on n nodes (all edge sets respecting the order 0<1<..<n-1) under every
+// relabelling of the nodes, built deferred+detect and immediately, from both base map orders;
+// every query (depths in particular: nodes reached by paths of different length) against the model.
+func c19DAGs(r *mc.Report, n int, shard, nshards int) {
+	run := func(c c05GraphCase) {
+		vsched.BaseReverse = c.Reverse
+		defer func() { vsched.BaseReverse = false }()
+		var fs []Finding
+		vsched.Run(c.Choices, func(s *vsched.Sched) { s.NoRace = true }, func() { fs = runGraphCase(c) })
+		r.Executions++
+		r.Validated++
+		r.States++
+		r.Transitions += int64(c.N + 2)
+		for _, f := range fs {
+			r.Violate(f.F, f.Detail+fmt.Sprintf("\n  DAG n=%d mask=%#x adjacency=%v relabel=%v mode=%s reversed-base-order=%v", c.N, c.Mask, adjOf(c.N, c.Mask, false), c.Perm, c.Mode, c.Reverse), c)
+		}
+	}
+	if r.Only != nil {
+		var c c05GraphCase
+		if json.Unmarshal(r.Only, &c) == nil && c.N == n && c.Mode != "" && len(c.Perm) == n {
+			if c.Choices == nil {
+				c.Choices = []int{}
+			}
+			run(c)
+		}
+		return
+	}
+	k := 0
+	masks := dagMasks(n)
+	for _, m := range masks {
+		for _, perm := range permutations(n) {
+			k++
+			if nshards > 1 && k%nshards != shard {
+				continue
+			}
+			for _, mode := range []string{"deferred", "immediate"} {
+				for _, rev := range []bool{false, true} {
+					run(c05GraphCase{N: n, Mask: m, Mode: mode, Reverse: rev, Perm: perm})
+				}
+			}
+		}
+	}
+	r.Outcome(fmt.Sprintf("DAGs n=%d shard %d/%d: %d edge sets x %d relabellings", n, shard, nshards, len(masks), len(permutations(n))))
 }
